@@ -2,6 +2,48 @@
 from rules import framework, stream
 
 
+def helper_processors(ctx):
+    """row / rows / resources helper processors apply the user callable to exactly what the framework hands them."""
+    import ast
+    from sa.pattern import has_stmt, has_expr, match_block
+    from sa.paths import Enumerator
+    from sa.model import u
+    run, repo = ctx.run, ctx.repo
+    run.rule('HLP', 'HELPERS: row_processor returns the result of the callable for the row, or the row itself when the callable returns None '
+                    '(in-place editing); rows_processor / resources_processor yield exactly what the callable produces from the stream '
+                    'they were given; the dispatcher wraps row / rows / package callables in the matching helper')
+    rp = repo.cls('dataflows.helpers.row_processor:row_processor').methods['process_row']
+    row = rp.params[1]
+    paths = Enumerator(where=rp.qualname).paths(rp.node.body)
+    ok = len(paths) == 2 and has_stmt('_ret = self.func(%s)' % row, rp.node)
+    for p in paths:
+        g = [(u(t), pol) for t, pol in p.guards()]
+        rets = [it.node for it in p.items if it.kind == 'return']
+        none = any((t.endswith('is None') and pol) or (t.endswith('is not None') and not pol) for t, pol in g)
+        if not g or len(rets) != 1:
+            ok = False
+        elif none:
+            ok = ok and u(rets[0].value) == row
+        else:
+            ok = ok and u(rets[0].value) != row and isinstance(rets[0].value, ast.Name)
+    run.check(ok, 'HLP', rp.where, rp.qualname, 'ret = self.func(row); return row if ret is None else ret',
+              'a row function\'s result is not what reaches the stream (a falsy result such as {} or 0 must not be replaced by the row)')
+    for cq, meth in (('dataflows.helpers.rows_processor:rows_processor', 'process_resource'),
+                     ('dataflows.helpers.resources_processor:resources_processor', 'process_resources')):
+        m = repo.cls(cq).methods[meth]
+        body = [s_ for s_ in m.node.body if not (isinstance(s_, ast.Expr) and isinstance(s_.value, ast.Constant))]
+        ok = len(body) == 1 and has_expr('(yield from self.func(%s))' % m.params[1], m.node)
+        run.check(ok, 'HLP', m.where, m.qualname, 'yield from self.func(%s)' % m.params[1],
+                  'the rows function is not applied to the stream as given, or its output is altered')
+    fl = repo.cls('dataflows.base.flow:Flow').methods['_chain']
+    want = {'row': 'row_processor', 'rows': 'rows_processor', 'package': 'datapackage_processor'}
+    for pname, helper in want.items():
+        hits = [n for n in ast.walk(fl.node) if isinstance(n, ast.If) and u(n.test) == "params[0] == %r" % pname]
+        ok = len(hits) == 1 and len(hits[0].body) == 1 and u(hits[0].body[0]).startswith('ds = %s(link)(ds, position=position)' % helper)
+        run.check(ok, 'HLP', fl.where, fl.qualname, "parameter %r -> %s(link)(ds, position=position)" % (pname, helper),
+                  'a callable whose parameter is called %r is not dispatched to %s' % (pname, helper))
+
+
 def check(ctx):
     run = ctx.run
     framework.r1_dispatch(ctx)
@@ -12,6 +54,7 @@ def check(ctx):
     # a step that skips an upstream resource without reading it starves the side effects of earlier steps (duplicate's
     # store, join's index): the lazy chain then differs from step-by-step evaluation
     stream.r6_consumption(ctx)
+    helper_processors(ctx)
     run.trusted += ['LF1 datapackage.Resource owns a private descriptor; Package.commit() snapshots',
                     'inspect.isfunction / inspect.signature / collections.abc.Iterable behave as documented']
     run.not_decided += ['behavioural equality of lazy and materialised evaluation over all step sequences and inputs '
